@@ -6,11 +6,27 @@
    lock in a consistent snapshot in which nothing of the node can run, KiB allocated and KiB read during the step.
    A line is consumed only if that is what the property demands for the class in the current phase - or if it is
    exactly the failure of a deviation listed in known_findings.txt (then the rest of that behaviour is not judged:
-   the node is dead, deadlocked or still allocating). *)
-EXTENDS WireClasses, TraceBase
+   the node is dead, deadlocked or still allocating).
+
+   The sequence layer (SBlocks / SConfirm / Tick, WireSeq.tla): whenever nothing of the node can run any more the binding
+   reads back the protocol manager's block cache (ids of the universe's blocks in it, "?" for others, Size), its confirm
+   cache (Size), the chain's stable height and which blocks of the universe the chain has.  obs is that reading at the
+   previous quiescence point; EVERY step - of either layer, and opening a connection - must stay in the envelope of
+   WireSeq: the caches take up at most what the step's input delivered (nblk / nconf: blocks / confirm packets in the
+   frames sent, as counted by the sender), and of the universe's blocks only those that can wait at all. *)
+EXTENDS WireClasses, WireSeq, TraceBase
 CONSTANTS AllowedDev, MaxFrameK, SlackK, C
-VARIABLES phase, tainted
-tv == <<phase, tainted, l>>
+VARIABLES phase, tainted, obs
+tv == <<phase, tainted, obs, l>>
+
+ObsInit == [ids |-> {}, nb |-> 0, nc |-> 0, known |-> {"G"}, stable |-> 0]
+HasObs(e) == "bc" \in DOMAIN e
+ObsOf(e) == IF HasObs(e) THEN [ids |-> ToSet(e.bcIds), nb |-> e.bc, nc |-> e.cc, known |-> ToSet(e.has), stable |-> e.stable] ELSE obs
+\* ds: the universe blocks sent in the step (sequence of descriptors)
+Proportionate(e, ds) == HasObs(e) => /\ CountEnvelope(e.bc, e.cc, obs.nb, obs.nc, e.nblk, e.nconf)
+                                     /\ IdsEnvelope(ToSet(e.bcIds), obs.ids, ds, obs.known, obs.stable)
+                                     /\ e.bc = Len(e.bcIds)
+                                     /\ e.stable >= obs.stable /\ obs.known \subseteq ToSet(e.has)     \* the chain only grows
 
 TRows(c, ph) == {t \in ClassTable : t[1] = c /\ ph \in t[2]}
 Bound(rk) == MaxFrameK + SlackK + C * rk
@@ -31,30 +47,43 @@ DevMatch(t, e) == CASE t[7] = "panic" -> ~e.alive
                     [] t[7] = "alloc" -> e.alive /\ e.allocK > Bound(e.readK)
                     [] OTHER -> FALSE
 
-TReset == Ev("reset") /\ phase' = "Idle" /\ tainted' = FALSE
+TReset == Ev("reset") /\ phase' = "Idle" /\ tainted' = FALSE /\ obs' = ObsInit
 \* opening a connection in either direction: the node is alive, nothing is deadlocked and it waits for the remote's handshake packet
 \* (when dialing: after having sent its own request, which the remote could decrypt - E.req - otherwise the binding is broken)
 TConnect == /\ Ev("Connect") /\ ~tainted /\ "dead" \notin DOMAIN E
-            /\ E.alive /\ Len(E.blocked) = 0 /\ ~E.closed /\ E.allocK <= Bound(0)
-            /\ phase' = "PreHs" /\ UNCHANGED tainted
+            /\ E.alive /\ Len(E.blocked) = 0 /\ ~E.closed /\ E.allocK <= Bound(0) /\ Proportionate(E, <<>>)
+            /\ phase' = "PreHs" /\ obs' = ObsOf(E) /\ UNCHANGED tainted
 TDial == /\ Ev("Dial") /\ ~tainted /\ "dead" \notin DOMAIN E
-         /\ E.alive /\ Len(E.blocked) = 0 /\ ~E.closed /\ E.allocK <= Bound(0) /\ E.req = "ok"
-         /\ phase' = "OutHs" /\ UNCHANGED tainted
+         /\ E.alive /\ Len(E.blocked) = 0 /\ ~E.closed /\ E.allocK <= Bound(0) /\ E.req = "ok" /\ Proportionate(E, <<>>)
+         /\ phase' = "OutHs" /\ obs' = ObsOf(E) /\ UNCHANGED tainted
 TRecv == /\ Ev("Recv") /\ ~tainted /\ "dead" \notin DOMAIN E
          /\ \E t \in TRows(E.a[1], phase) :
-              \/ /\ Healthy(E) /\ ReactOK(t[3], E, phase)
-                 /\ phase' = Np(t[3], E, phase) /\ tainted' = FALSE
+              \/ /\ Healthy(E) /\ ReactOK(t[3], E, phase) /\ Proportionate(E, <<>>)
+                 /\ phase' = Np(t[3], E, phase) /\ tainted' = FALSE /\ obs' = ObsOf(E)
               \/ /\ ~(Healthy(E) /\ ReactOK(t[3], E, phase))
                  /\ t[6] \in AllowedDev /\ DevMatch(t, E) /\ UseDev(t[6])
-                 /\ phase' = phase /\ tainted' = TRUE
+                 /\ phase' = phase /\ tainted' = TRUE /\ UNCHANGED obs
 \* input for a connection the node has already closed (possible after an "any" class): nothing may happen
 TRecvClosed == /\ Ev("Recv") /\ ~tainted /\ "dead" \notin DOMAIN E /\ phase = "Closed"
-               /\ Healthy(E) /\ E.closed /\ E.read = 0
-               /\ UNCHANGED <<phase, tainted>>
+               /\ Healthy(E) /\ E.closed /\ E.read = 0 /\ Proportionate(E, <<>>)
+               /\ obs' = ObsOf(E) /\ UNCHANGED <<phase, tainted>>
+\* ---------------------------------------------------------------- the sequence layer
+\* a decodable BlocksMsg / ConfirmMsg with arbitrary content on an established connection: the node stays healthy and
+\* its state in proportion; keeping or dropping the peer are both fine.  On a connection the node has closed nothing is read.
+SeqStep(ds) == /\ ~tainted /\ "dead" \notin DOMAIN E /\ phase \in {"Est", "Closed"}
+               /\ Healthy(E) /\ Proportionate(E, ds)
+               /\ phase = "Closed" => E.closed /\ E.read = 0
+               /\ phase' = (IF E.closed THEN "Closed" ELSE phase) /\ obs' = ObsOf(E) /\ UNCHANGED tainted
+TSBlocks == Ev("SBlocks") /\ SeqStep(IF phase = "Est" THEN E.a[1] ELSE <<>>)
+TSConfirm == Ev("SConfirm") /\ SeqStep(<<>>)
+\* the manager's queue timer passed at least once, nothing was sent: whatever it did, the node is healthy and the caches did not grow
+TTick == /\ Ev("Tick") /\ ~tainted /\ "dead" \notin DOMAIN E /\ phase \in {"Est", "Closed"}
+         /\ Healthy(E) /\ Proportionate(E, <<>>) /\ E.read = 0
+         /\ phase' = (IF E.closed THEN "Closed" ELSE phase) /\ obs' = ObsOf(E) /\ UNCHANGED tainted
 \* after an accepted known failure the node is dead / deadlocked / busy: the rest of the behaviour carries no information
 TSkip == /\ tainted /\ l <= Len(Trace) /\ Trace[l].ev # "reset" /\ "panic" \notin DOMAIN Trace[l]
-         /\ l' = l + 1 /\ UNCHANGED <<phase, tainted>>
-TraceNext == TReset \/ TConnect \/ TDial \/ TRecv \/ TRecvClosed \/ TSkip
-TraceSpec == l = 1 /\ phase = "Idle" /\ tainted = FALSE /\ [][TraceNext]_tv
+         /\ l' = l + 1 /\ UNCHANGED <<phase, tainted, obs>>
+TraceNext == TReset \/ TConnect \/ TDial \/ TRecv \/ TRecvClosed \/ TSBlocks \/ TSConfirm \/ TTick \/ TSkip
+TraceSpec == l = 1 /\ phase = "Idle" /\ tainted = FALSE /\ obs = ObsInit /\ [][TraceNext]_tv
 PhaseOK == phase \in {"Idle", "PreHs", "OutHs", "ProtoHs", "Est", "Closed"}
 ====
